@@ -2,6 +2,7 @@ package main
 
 import (
 	"fmt"
+	"go/token"
 	"go/types"
 	"strings"
 
@@ -404,6 +405,52 @@ func runC14(c *Ctx) {
 				c.Require("C14.R10 reorg-promotes-verified", FuncKey(reorg)+" ⇒ Promote", p.InstrPos(s.Call), "Promote under verdict == Ok, or on a prefix strictly below the failed index", okEdge || prefix, "arg: "+arg.String())
 			}
 			c.MinInstances("C14.R10 reorg-promotes-verified", n, 2)
+		}
+		// what is offered for promotion is the run of nonces directly following the processable
+		// ones: every transaction put into GetPromotable's result has a nonce known to be the
+		// successor of the highest processable / the previously offered one — or, for the first
+		// of a sender without processable transactions, any nonce
+		if gp := c.Anchor("pkg/txpool.(*addressTransactions).GetPromotable"); gp != nil {
+			gf := factsOf(gp)
+			n := 0
+			for _, call := range AllCallsDeep(gp) {
+				if CalleeName(call.Common()) != "builtin:append" || len(call.Common().Args) != 2 {
+					continue
+				}
+				var nonce *Term
+				gf.Term(call.Common().Args[1]).Walk(func(t *Term) bool {
+					if t.Op == "lookup" && len(t.Args) == 2 && t.Args[0].Any(IsField(list, "transactions").F) {
+						nonce = t.Args[1]
+					}
+					return true
+				})
+				if nonce == nil {
+					continue
+				}
+				n++
+				blk := call.(ssa.Instruction).Block()
+				ok := gf.EveryPathHas(blk, func(f Fact) bool {
+					if !f.IsCmp {
+						return false
+					}
+					if f.Op == token.EQL {
+						for _, side := range [][2]*Term{{f.L, f.R}, {f.R, f.L}} {
+							same := side[0].String() == nonce.String()
+							if side[0].V != nil && nonce.V != nil {
+								same = stripConv(side[0].V) == stripConv(nonce.V) // two Pop calls print alike
+							}
+							if same && side[1].Op == "binop" && side[1].Sym == "+" && (side[1].Args[1].String() == "1" || side[1].Args[0].String() == "1") {
+								return true
+							}
+						}
+					}
+					return f.Entails(CmpSpec{A: Matcher{"len(processables)", func(t *Term) bool {
+						return t.Op == "call" && t.Sym == "builtin:len" && len(t.Args) == 1 && IsField(list, "processables").Match(t.Args[0])
+					}}, NoB: true, Rel: LE, D: 0})
+				})
+				c.Require("C14.R10 promotable-run-consecutive", FuncKey(gp)+": offer "+nonce.String(), p.InstrPos(call), "a nonce is offered only as the successor of the previous one (or first, for a sender with nothing processable)", ok, "")
+			}
+			c.MinInstances("C14.R10 promotable-run-consecutive", n, 1)
 		}
 		// demotion on replace / remove
 		for _, x := range []struct {
